@@ -566,6 +566,13 @@ def run_c05(req):
             else:
                 for pick in req.get("pair_picks", []):
                     plans.append(list(allpairs[pick % len(allpairs)]))
+                # always: two faults at neighbouring invocations of the same hook kind (siblings: two children of one
+                # exit stack, two contexts of one frame, two items of one sequence)
+                for site in sorted(counts):
+                    for k in range(1, counts[site]):
+                        plans.append([(site, k), (site, k + 1)])
+                        if k + 2 <= counts[site]:
+                            plans.append([(site, k), (site, k + 2)])
         for plan in plans:
             st, raised, w = run_plan(target, plan)
             stats["plans"] += 1
